@@ -964,6 +964,32 @@ def rule_p11(F):
 BACKWARD_STR = {"ends_with", "rfind", "strip_suffix", "rsplit_once", "rsplit", "rsplitn", "rmatches", "rmatch_indices", "trim_end_matches", "next_back", "last", "rev"}
 
 
+def _returns_prefix(hb):
+    """does the function return (a value derived from) `text[..n]`?"""
+    hdefs = mir.Defs(hb)
+    seen, work = set(), [0]
+    while work:
+        l = work.pop()
+        if l in seen:
+            continue
+        seen.add(l)
+        for d in hdefs.defs.get(l, []):
+            if d[2] == "call":
+                t = d[3]
+                if hir.last(mir.callee_def(t) or "") in ("index", "get", "get_unchecked", "split_at"):
+                    for a in t.get("args") or []:
+                        if mir.is_place_op(a):
+                            ty = str(hb.mir["locals"][a[1][0]].get("ty") or "")
+                            if "RangeTo<" in ty or "RangeToInclusive<" in ty:
+                                return True
+                for a in t.get("args") or []:
+                    if mir.is_place_op(a):
+                        work.append(a[1][0])
+            elif d[2] == "assign":
+                work.extend(mir.rv_locals(d[3]["rv"]))
+    return False
+
+
 def rule_p12(F, bodies=None):
     """Escape-aware scanners read left to right.  What a character means (a brace that starts an interpolation, a quote that ends a
     literal) depends on the escapes consumed before it, and those cannot be recovered from the raw text in front of the cursor:
@@ -992,6 +1018,12 @@ def rule_p12(F, bodies=None):
                                 ty = str(b.mir["locals"][a[1][0]].get("ty") or "")
                                 if "RangeTo<" in ty or "RangeToInclusive<" in ty:
                                     return True
+                    # a crate helper that returns a prefix of the text (`fn eaten(&self, tail) -> &str { &self.input[..n] }`)
+                    cal = mir.callee(t) or mir.callee_def(t) or ""
+                    if F is not None and hasattr(F, "has") and F.has(cal) and cal != b.path and depth < 3:
+                        hb = F.body(cal)
+                        if hb is not None and hb.mir and _returns_prefix(hb):
+                            return True
                     for a in t.get("args") or []:
                         if mir.is_place_op(a) and prefix_slice(a[1][0], seen, depth + 1):
                             return True
